@@ -95,17 +95,29 @@ pp_semaphore_create_handle (PSemaphore	*sem,
 
 	if (sem->sem_hdl == P_SEM_INVALID_HDL) {
 		if (p_error_get_last_system () == EEXIST) {
-			if (sem->mode == P_SEM_ACCESS_CREATE)
+			if (sem->mode == P_SEM_ACCESS_CREATE) {
+				/* Reset: remove the old object and create a fresh one */
 				sem_unlink (sem->platform_key);
-			else
+
+				while ((sem->sem_hdl = sem_open (sem->platform_key,
+								 O_CREAT | O_EXCL,
+								 0660,
+								 init_val)) == P_SEM_INVALID_HDL &&
+					p_error_get_last_system () == EINTR)
+					;
+
+				if (sem->sem_hdl != P_SEM_INVALID_HDL)
+					sem->sem_created = TRUE;
+			} else {
 				init_val = 0;
 
-			while ((sem->sem_hdl = sem_open (sem->platform_key,
-							 0,
-							 0,
-							 init_val)) == P_SEM_INVALID_HDL &&
-				p_error_get_last_system () == EINTR)
-				;
+				while ((sem->sem_hdl = sem_open (sem->platform_key,
+								 0,
+								 0,
+								 init_val)) == P_SEM_INVALID_HDL &&
+					p_error_get_last_system () == EINTR)
+					;
+			}
 		}
 	} else
 		sem->sem_created = TRUE;
